@@ -233,9 +233,11 @@ COVER_GOALS = ["len_within_expansion_bound", "summary_is_total", "every_pair_pre
                "every_trunk_row_presented", "standin_side_conditions", EXACT]
 
 
-def deeponet_coverage_case(B, layout, regime, shb=False, sht=False):
-    """one pass presents every (function, location) pair: forall f<N_b, l<N_t exists idx<len"""
-    name = "A/deeponet/coverage/%s/%s" % (layout, regime) + ("/shuffled" if (shb or sht) else "")
+def deeponet_coverage_case(B, layout, regime, shb=False, sht=False, rebatch=False):
+    """one pass presents every (function, location) pair: forall f<N_b, l<N_t exists idx<len.
+    rebatch: the data set was built with OTHER (arbitrary) batch sizes and the sizes under test were assigned to
+    dataset.branch_batch_size / trunk_batch_size afterwards (the data set documents that it supports this)"""
+    name = "A/deeponet/coverage/%s/%s" % (layout, regime) + ("/shuffled" if (shb or sht) else "") + ("/rebatched" if rebatch else "")
     K = B * B
 
     def body(env):
@@ -243,8 +245,12 @@ def deeponet_coverage_case(B, layout, regime, shb=False, sht=False):
         Nb, Nt = SI.bvint(env, "N_b", 1, B), SI.bvint(env, "N_t", 1, B)
         bb, bt = SI.bvint(env, "bs_b", 1, B), SI.bvint(env, "bs_t", 1, B)
         f, l = SI.bvint(env, "f", 0, B - 1), SI.bvint(env, "l", 0, B - 1)
+        bb0, bt0 = (SI.bvint(env, "bs_b0", 1, B), SI.bvint(env, "bs_t0", 1, B)) if rebatch else (bb, bt)
         if not env.symbolic:
-            loader = _real_deeponet_loader(layout, Nb, Nt, bb, bt, shb, sht)
+            loader = _real_deeponet_loader(layout, Nb, Nt, bb0, bt0, shb, sht)
+            if rebatch:
+                len(loader)
+                loader.dataset.branch_batch_size, loader.dataset.trunk_batch_size = bb, bt
             pairs, n = set(), 0
             for batch in loader:
                 n += 1
@@ -264,7 +270,10 @@ def deeponet_coverage_case(B, layout, regime, shb=False, sht=False):
         with SI.shadow_globals(DM):
             for a in _regime(regime, layout, Nb, Nt, bb, bt):
                 env.assume(a)
-            ds = _sym_deeponet(layout, Nb, Nt, bb, bt, shb, sht)
+            ds = _sym_deeponet(layout, Nb, Nt, bb0, bt0, shb, sht)
+            if rebatch:
+                ds.__len__()
+                ds.branch_batch_size, ds.trunk_batch_size = bb, bt
             n = SI.zB(ds.__len__())
             local = [idx >= 0, idx < n, idx < K]
 
@@ -658,6 +667,7 @@ def cases(tier):
     cs.append(deeponet_coverage_case(B, "unique", "bs_le_n_equal_counts"))
     cs.append(deeponet_coverage_case(B, "unique", "bs_le_n_equal_counts", True, True))
     cs.append(deeponet_coverage_case(B, "unique", "bs_gt_n_equal_counts"))
+    cs.append(deeponet_coverage_case(B, "unique", "bs_le_n", rebatch=True))
     # ---- route B
     pts = [(3, 2, False, False), (3, 2, True, False), (3, 2, True, True), (2, 3, False, False), (4, 2, False, True)]
     if th:
